@@ -77,6 +77,9 @@ def shards(tier):
             if cls in HANDLE_CLASSES:
                 for hk in HANDLE_KINDS:
                     out.append({"buf": buf, "kind": "handles", "cls": cls, "handle": hk, "depth": 2})
+    # every class once more with all loggers of the library at DEBUG: depth-2 histories
+    for cls in CLASSES:
+        out.append({"buf": 8192, "kind": "debuglog", "cls": cls})
     for buf in ([8192] if q else [512, 8192]):
         for cls in SWEEPS:
             for order in ("asc", "desc", "stride"):
@@ -687,6 +690,11 @@ def run_shard(shard, ctx):
             *[itertools.product(ops, repeat=x) for x in range(1, d + 1)])
         for seq in sliced(seqs, i, k):
             run_case({"kind": "single", "cls": cls, "ops": [list(o) for o in seq]}, ctx)
+    elif kind == "debuglog":
+        im = _image(cls, 0, buf)
+        ops = alphabet(im["disk"].size, buf, im["unit"], im["sectors"], True)
+        for seq in itertools.chain(itertools.product(ops, repeat=1), itertools.product(ops, repeat=2)):
+            run_case({"kind": "single", "cls": cls, "ops": [list(o) for o in seq], "debuglog": True}, ctx)
     elif kind == "pair":
         ims = [_image(cls, 0, buf), _image(cls, 1, buf)]
         ops = []
@@ -717,7 +725,38 @@ def run_shard(shard, ctx):
         run_case({"kind": "sweep", "cls": cls, "order": shard["order"], "depth": shard["depth"]}, ctx)
 
 
+def _debug_logging(on):
+    """Every logger of the library at DEBUG (as DISSECT_LOG_* = DEBUG or a logging configuration would set it): what is logged
+    never changes what is returned."""
+    import logging
+
+    for name in list(logging.root.manager.loggerDict):
+        if not name.startswith("dissect"):
+            continue
+        lg = logging.getLogger(name)
+        if on:
+            if not hasattr(lg, "_verif_prev"):
+                lg._verif_prev = (lg.level, lg.propagate, list(lg.handlers))
+            lg.setLevel(logging.DEBUG)
+            lg.propagate = False
+            lg.handlers = [logging.NullHandler()]
+        elif hasattr(lg, "_verif_prev"):
+            lg.level, lg.propagate, lg.handlers = lg._verif_prev[0], lg._verif_prev[1], lg._verif_prev[2]
+            lg.setLevel(lg._verif_prev[0])
+            del lg._verif_prev
+
+
 def run_case(case, ctx):
+    if case.get("debuglog"):
+        _debug_logging(True)
+        try:
+            return _run_case(dict(case, debuglog=False), ctx)
+        finally:
+            _debug_logging(False)
+    return _run_case(case, ctx)
+
+
+def _run_case(case, ctx):
     buf = bootstrap.bufsize()
     kind = case["kind"]
     if kind == "sweep":
